@@ -56,6 +56,15 @@ UntilOk ==
       /\ (ZAddSettled(z, a, u.sp) => ZAdd(z, a, u.sp) = b)
       \* the time units never reach two days
       /\ BLt(BAbs(SpanTimeNs(u.sp)), BMulSmall(BDayNs, 2))
+\* start of a civil day (C06), as the trace specification expects it: the least instant whose civil date is
+\* that day (end_of_day is not part of the property: the specification follows its documentation)
+DayOk ==
+  \A d \in {D0 - 1, D0} :
+    LET s == StartOfDayC(z, d) IN
+    (s # <<>> /\ StartSettled(z, d)) =>
+          /\ CivilAt(z, s)[1] = d
+          /\ CivilAt(z, AddNs(s, -1))[1] # d
+          /\ (CivilAt(z, a)[1] = d => TLe(s, a))
 \* the unsettled cases are rare: the model is not vacuous
 Settles == \A L \in 6..9 : ZUntil(z, a, b, L).ok \/ Sign3(a, b) # 0
 =======================================================================
